@@ -8,12 +8,12 @@ def layers(toks, spc=0, tier='quick'):
     d = {'FUNC': 2, 'FA_CAP': 32, 'NTOK': len(toks), 'SPC': spc}
     for i in range(3): d['K%d' % i] = KN[toks[i]] if i < len(toks) else 0
     return Ob('decomp.layers.' + '_'.join(toks) + '.sp%d' % spc, 'tx/decomp.c', units=U, models=['@libc_model.c', '@fixed_alloc.c'], remove=['htp_log', 'bstr_alloc', 'bstr_expand', 'htp_req_run_hook_body_data', 'htp_res_run_hook_body_data'], defines=d,
-              unwind=24, unwindset=['strlen.0:40'], tier=tier, timeout=600, mem_gb=8,
+              unwind=24, unwindset=['strlen.0:40', 'memcmp.0:2000', 'harness.0:2000'], tier=tier, timeout=600, mem_gb=8,
               statement='decompressor chain built from Content-Encoding: length <= layer limit, lzma within its limit, stale decompressor released first, nothing when decompression is disabled',
               bounds='Content-Encoding "%s" (SP-after-comma mask %d), layer limit 0..3, lzma limit 0..2, decompression enabled/disabled, stale decompressor present/absent (all symbolic)' % (', '.join(toks), spc))
 def obligations(tier):
     obs = [Ob('decomp.bomb_arithmetic', 'tx/decomp.c', units=U, models=['@libc_model.c', '@fixed_alloc.c'], remove=['htp_log', 'bstr_alloc', 'bstr_expand', 'htp_req_run_hook_body_data', 'htp_res_run_hook_body_data'], defines={'FUNC': 1, 'FA_CAP': 32},
-              unwind=24, unwindset=['strlen.0:40'], tier='quick', timeout=600, mem_gb=8,
+              unwind=24, unwindset=['strlen.0:40', 'memcmp.0:2000', 'harness.0:2000'], tier='quick', timeout=600, mem_gb=8,
               statement='the per-block decompressor callbacks report an error iff entity_len > bomb limit and entity_len > 2048 x message_len after adding the block',
               bounds='all 62-bit entity lengths, every non-negative int32 limit, message length < 2^51, block length 0..8192, both directions')]
     combos = [('gzip', 'gzip', 'gzip'), ('gzip', 'deflate'), ('lzma', 'gzip'), ('gzip', 'lzma'), ('lzma', 'lzma'), ('x', 'gzip', 'none'), ('deflate',), ('gzip', 'x', 'lzma')]
